@@ -3,6 +3,7 @@ use crate::{Prop, Tier};
 pub mod c01;
 pub mod c02;
 pub mod c04;
+pub mod c05;
 pub mod c06;
 pub mod c10;
 pub mod c14;
@@ -16,6 +17,7 @@ pub fn get(id: &str, tier: Tier, seed: u64) -> Option<Prop> {
         "C01" => c01::prop(tier, seed),
         "C02" => c02::prop(tier, seed),
         "C04" => c04::prop(tier, seed),
+        "C05" => c05::prop(tier, seed),
         "C06" => c06::prop(tier, seed),
         "C10" => c10::prop(tier, seed),
         "C14" => c14::prop(tier, seed),
